@@ -132,7 +132,7 @@ class SplitRowsOp(BaseOp):
         self._split_rows(df, df_list)
         df_ret = pd.concat(df_list, axis=0, ignore_index=True)
         df_ret["onset"] = df_ret["onset"].apply(pd.to_numeric)
-        df_ret = df_ret.sort_values('onset').reset_index(drop=True)
+        df_ret = df_ret.sort_values('onset', kind="stable").reset_index(drop=True)
         return df_ret
 
     def _split_rows(self, df, df_list):
